@@ -44,12 +44,12 @@ EXHAUSTIVE = {"sym": "all (gate, obligation) pairs over the 27-entry gate table 
               "fixed": "the fixed relations named in the property", "grid": "every gate at the special-angle grid",
               "group_int": "the additive law a,b -> a+b for every one-parameter group gate at all integer angle pairs "
                            "in -3..3 (given alternately as Python int and float)"}
-BUDGET = {"quick": (4, 40, 400), "thorough": (16, 150, 4000)}
+BUDGET = {"quick": (4, 40, 900), "thorough": (16, 150, 4000)}
 CASE_TIMEOUT = {"quick": 25, "thorough": 60}
 
 GROUP_GATES = ["RX", "RY", "RZ", "RH", "PHASE", "CPHASE", "XX", "YY", "ZZ", "XY"]
 GRID = [0, math.pi / 4, -math.pi / 4, math.pi / 2, -math.pi / 2, math.pi, -math.pi, 2 * math.pi,
-        -2 * math.pi, 4 * math.pi, -4 * math.pi, 1e-9, 1e3]
+        -2 * math.pi, 4 * math.pi, -4 * math.pi, 1e-9, 1e3, -3, -2, -1, 1, 2, 3]
 
 
 def classes(tier):
@@ -146,6 +146,9 @@ def _post_matrix(mon, call):
     A = GC.to_np(M)
     if not L.is_unitary(A, 1e-9):
         mon.violation("not-unitary", f"{gate.name}{gate.params}: |M^H M - I| = {L.maxdiff(A.conj().T @ A, np.eye(d))}")
+        return
+    if gate.name == "Delay" and L.maxdiff(A, np.eye(d)) > 1e-12:
+        mon.violation("delay-not-identity", f"Delay{gate.params}: matrix is not the identity")
         return
     if gate.is_hermitian and L.maxdiff(A, A.conj().T) > 1e-9:
         mon.violation("flagged-hermitian-but-not", f"{gate.name}{gate.params}: |M - M^H| = {L.maxdiff(A, A.conj().T)}")
